@@ -961,4 +961,27 @@ Proof.
   - exfalso. exact (Hns p q l E0 Ea Eb Ez).
 Qed.
 
+(** no version present before the interrupted run is lost: after the two re-runs it
+    is on both sides (C02's statement for the uninterrupted run carries over since
+    the states are equal); after the first re-run already it is on at least one side *)
+Lemma recovery_no_loss (s : state) ae k : HashOk s -> Fresh s ->
+  let r1 := run_state (recover (crash s ae k)) in
+  let r2 := run_state r1 in
+  forall sd p c, side_tree sd s !! p = Some c ->
+    (kept Hh dge cname s r2 p c \/ superseded Hh s sd p c) /\
+    ((exists x, (x = p \/ conflict s p = Some (x, c)) /\ (tA r1 !! x = Some c \/ tB r1 !! x = Some c)) \/
+     superseded Hh s sd p c).
+Proof.
+  intros Hok F. cbn zeta. intros sd p c Hc.
+  destruct (recovery_conflicts s ae k Hok F) as (_ & H1 & -> & _).
+  assert (NL : kept Hh dge cname s (run_state s) p c \/ superseded Hh s sd p c).
+  { unfold BisyncStepsProofs.run_state. destruct (bisync_run s) as [[s' e] pl] eqn:R. cbn [fst].
+    exact (run_no_loss Hh dge cname kle s s' e pl Hok F R sd p c Hc). }
+  split; [exact NL|]. destruct NL as [(x & Hx & Ka & Kb)|Sup]; [left|right; exact Sup].
+  exists x. split; [exact Hx|]. destruct H1 as [->|(sd' & p' & q & l & _ & (Ox & Ta & Tb & O1 & O2 & _))]; [auto|].
+  destruct (decide (x = q)) as [->|N].
+  - assert (c = l) by congruence. subst c. destruct sd'; cbn in O2; auto.
+  - destruct (Ox x N) as (-> & _). auto.
+Qed.
+
 End R.
